@@ -95,7 +95,19 @@ def render_strings(proto, lang: str, **kw) -> Dict[str, str]:
     return out
 
 
-def render_all_files(main_path: str, lang: str, outdir: str, traditional_mode: bool = False, **kw) -> Dict[str, str]:
+def lint_quietly(proto):
+    """What the command line does before rendering unless -q is given (warnings discarded)."""
+    import bitproto.linter as L
+    saved = L.warning
+    L.warning = lambda *a, **k: None
+    try:
+        with quiet_stderr():
+            L.lint(proto)
+    finally:
+        L.warning = saved
+
+
+def render_all_files(main_path: str, lang: str, outdir: str, traditional_mode: bool = False, lint: bool = False, **kw) -> Dict[str, str]:
     """Compile `main_path` and every (transitively) imported schema file the way a user does:
     each file is parsed on its own as a top-level schema and rendered into outdir under the
     file name the compiler itself chooses.  Returns ({file name: text}, parsed main proto)."""
@@ -111,6 +123,8 @@ def render_all_files(main_path: str, lang: str, outdir: str, traditional_mode: b
         for _, child in p.protos(recursive=False):
             rec(child, False)
         q = p if top else parse_file(p.filepath, traditional_mode=traditional_mode)
+        if lint:
+            lint_quietly(q)
         for cls in renderer_classes(lang):
             r = cls(q, outdir=outdir, **kw)
             text = r.render_string()
